@@ -1,6 +1,7 @@
 package props
 
 import (
+	"free5gclib/nas"
 	"bytes"
 	"fmt"
 
@@ -57,6 +58,9 @@ func runC06(ctx *Ctx) {
 	for m := 4; m < len(msgs); m++ {
 		ops = append(ops, c06op{m, 2, false})
 	}
+	// an attempt that fails inside the protected branch (a message type the encoder does not know): nothing is sent, so
+	// no COUNT may be consumed and the next message carries the COUNT the failed one would have had
+	ops = append(ops, c06op{-1, 2, false})
 	// long messages (NAS containers go far beyond 256 and 1024 octets): sent in histories of one and two sends only
 	shortOps := len(ops)
 	for _, n := range []int{240, 243, 244, 245, 300, 1010, 1013, 1100, 4000} {
@@ -170,6 +174,29 @@ func c06history(r *report.Report, l *report.Local, msgs [][]byte, ops []c06op, a
 		// model state: (algorithm pair, COUNT the receiver expects next); transition: one send operation from it
 		l.State(c06key(alg, expect, -1))
 		l.Transition(c06key(alg, expect, oi))
+		if op.msg < 0 {
+			bad := nas.NewMessage()
+			bad.GmmMessage = nas.NewGmmMessage()
+			bad.GmmHeader.SetMessageType(0x3f) // not a 5GMM message type
+			bad.SecurityHeader = nas.SecurityHeader{ProtocolDiscriminator: 0x7e, SecurityHeaderType: op.h}
+			var ferr error
+			perr := recoverErr(func() { _, ferr = tglib.NASEncode(ue, bad, true, false) })
+			if perr != nil {
+				r.Violate("protect/panic-on-failed-attempt", desc, perr.Error(), seq)
+				break
+			}
+			if ferr != nil && ue.ULCount.Get() != expect {
+				r.Violate("protect/failed-attempt-consumed-a-COUNT", desc+" [failed attempt]", fmt.Sprintf("step %d: the attempt returned %q and sent nothing, yet UL COUNT went from %#x to %#x", step, ferr.Error(), expect, ue.ULCount.Get()), seq)
+				break
+			}
+			if ferr == nil {
+				expect = (expect + 1) & 0xffffff // (the encoder accepted it: then it was a send)
+			}
+			if short {
+				desc += " failed-attempt"
+			}
+			continue
+		}
 		if op.newCtx {
 			expect = 0
 		}
